@@ -103,6 +103,7 @@ type c19Case struct {
 	stale      bool // pre-populate the output directory with stale output files
 	strace     string // "", "openat-eacces", "write-enospc"
 	outIsDir   bool   // the output file path already exists as a directory
+	outIsInput bool   // the output path of one of the targets is the input file
 	badArgs    []string // complete argument list for bad-option cases (placeholders IN, OUT)
 }
 
@@ -116,7 +117,7 @@ func extOf(t string) string {
 func checkC19(c *Check) {
 	c.Rule = "the built tsh binary is run as a process on generated command lines: all orders of -i/-o/-t pairs with short and long spellings, target lists {bash}, {batch}, {bash,batch}, {batch,bash}, {bash,bash}, {bash,batch,bash}, input names (a.tsh, a.b.tsh, noext, .tsh, 'my prog.tsh', dir/sub/a.tsh; relative and absolute), output directories (., relative, absolute, with blank; with stale outputs and bystander files named like temporaries), inputs lying in the output directory under temporary-looking names, 15 accepted (five of them chosen for bytes that a text-mode rewrite would change: CR LF inside literals, CR, tabs, trailing blanks, CRLF source, no final newline, non-ASCII) and 12 rejected programs (conversion errors in else/default branches, functions and imported files among them), names beginning with a dash or spelled like a switch, bad options, and fault configurations (output path is a directory; strace-injected EACCES on open / ENOSPC on write of the output file); oracle = exit status + recursive before/after stamps (size, mode, mtime, SHA-256) of the work directory + the library's output for the same file and target computed in the harness. Non-trivial = every process run; distinct = command line + program"
 	c.Level = "fault_enumeration"
-	c.Assumptions = []string{"the library (fresh transpiler and converter) is the reference for the bytes", "files written for targets listed before a failing target are allowed to exist (the property speaks of the failing target)", "a trailing unpaired argument and repeated -i/-o are not asserted"}
+	c.Assumptions = []string{"the library (fresh transpiler and converter) is the reference for the bytes", "files written for targets listed before a failing target are allowed to exist (the property speaks of the failing target)", "repeated -i/-o are not asserted (the last one counts)"}
 	progs := c19Programs()
 	cases := []c19Case{}
 	orders := []string{"iot", "ito", "oit", "oti", "tio", "toi"}
@@ -169,6 +170,21 @@ func checkC19(c *Check) {
 			}
 		}
 	}
+	// the output path of a target is the input file itself (input named <stem>.sh / <stem>.bat lying in the output
+	// directory): an error for that target, the input keeps its bytes
+	for _, p := range []c19Prog{progs[0], progs[1]} {
+		for _, c2 := range []struct {
+			in string
+			ts []string
+		}{{"out/prog.sh", []string{"bash"}}, {"out/prog.bat", []string{"batch"}}, {"out/prog.sh", []string{"batch", "bash"}}, {"out/prog.bat", []string{"bash", "batch"}}, {"out/my prog.sh", []string{"bash", "bash"}}, {"prog.sh", []string{"bash"}}} {
+			od := "out"
+			if !strings.Contains(c2.in, "/") {
+				od = "."
+			}
+			cases = append(cases, c19Case{key: fmt.Sprintf("output-is-input/%s/in=%s/t=%s", p.name, hexKey(c2.in), strings.Join(c2.ts, "+")), prog: p, inputName: c2.in, outDir: od, targets: c2.ts, argOrder: "iot", outIsInput: true})
+			// a hard link or symbolic link to the input standing at the output path is the input as well
+		}
+	}
 	// bad options
 	bad := map[string][]string{
 		"unknown-switch":   {"-x", "1", "-i", "IN", "-o", "OUT", "-t", "bash"},
@@ -185,6 +201,13 @@ func checkC19(c *Check) {
 		"long-unknown":     {"--input", "IN", "--out", "OUT", "--type", "bash"},
 		"type-empty":       {"-i", "IN", "-o", "OUT", "-t", ""},
 		"case-sensitive":   {"-i", "IN", "-o", "OUT", "-t", "Bash"},
+		// a switch without its value, or a word that belongs to no switch, at the end of an otherwise complete line
+		"dangling-type-switch":  {"-i", "IN", "-o", "OUT", "-t", "bash", "-t"},
+		"dangling-out-switch":   {"-i", "IN", "-t", "bash", "-o", "OUT", "-o"},
+		"dangling-in-switch":    {"-o", "OUT", "-t", "bash", "-i", "IN", "--in"},
+		"trailing-word":         {"-i", "IN", "-o", "OUT", "-t", "bash", "extra"},
+		"trailing-unknown":      {"-i", "IN", "-o", "OUT", "-t", "batch", "-x"},
+		"leading-word":          {"extra", "-i", "IN", "-o", "OUT", "-t", "bash"},
 	}
 	for _, k := range func() []string {
 		m := map[string]string{}
@@ -378,6 +401,15 @@ func c19Run(c *Check, cs c19Case, straceOK bool) {
 	}
 	if cs.strace != "" || cs.outIsDir {
 		failedAt = 0
+	}
+	if cs.outIsInput && failedAt < 0 {
+		for i, t := range cs.targets {
+			if filepath.Clean(filepath.Join(outRel, base+"."+extOf(t))) == filepath.Clean(inRel) {
+				failedAt = i
+				expectOK = false
+				break
+			}
+		}
 	}
 	if cs.badArgs != nil {
 		failedAt = 0
